@@ -118,6 +118,10 @@ func (b *Cal) GetCalendarObject(ctx context.Context, path string, req *caldav.Ca
 	b.mu.Lock()
 	defer b.mu.Unlock()
 	if code, ok := b.Fail[path]; ok {
+		if code < 0 {
+			// the status travels inside a wrapped error, as a layered backend would return it
+			return nil, fmt.Errorf("storage layer: %w", webdav.NewHTTPError(-code, fmt.Errorf("forced")))
+		}
 		return nil, webdav.NewHTTPError(code, fmt.Errorf("forced"))
 	}
 	if o, ok := b.Objects[path]; ok {
@@ -267,6 +271,10 @@ func (b *Card) GetAddressObject(ctx context.Context, path string, req *carddav.A
 	b.mu.Lock()
 	defer b.mu.Unlock()
 	if code, ok := b.Fail[path]; ok {
+		if code < 0 {
+			// the status travels inside a wrapped error, as a layered backend would return it
+			return nil, fmt.Errorf("storage layer: %w", webdav.NewHTTPError(-code, fmt.Errorf("forced")))
+		}
 		return nil, webdav.NewHTTPError(code, fmt.Errorf("forced"))
 	}
 	if o, ok := b.Objects[path]; ok {
